@@ -33,6 +33,7 @@ NOTES = {
     "C19_g": "round 4: NOT detected at first (a mutable scratch member of the per-provider ViewRegistry used under per-meter locks); C19 got a ThreadSanitizer independence probe (commit b17ceca) - caught (purity:data_race)",
     "C19_h": "round 4: NOT detected at first (lazy tracer config: 'resolved' flag raised before the data is written); same probe, scenario first StartSpan on shared tracers - caught (purity:data_race)",
     "C04_g": "round 4: NOT detected at first by C04 (SimpleSpanProcessor slot written outside the lock; needs two DIFFERENT spans ended concurrently); C04 got MRACE cases (commit cce5f01) and the simple-processor history checker of C03 got the clause export:not_the_callers_record - caught by both",
+    "C02_h": "hand-made mutation for the tightened periodic acceptor (RWEnd): the worker skips its per-cycle read of the shutdown latch when woken by ForceFlush; the 23-step Shutdown bound of c02_periodic_shutdown_joinable_under_fair_worker no longer holds but no finite history fails -> broken tie, no-failing-input-found (before the tightening the traces were accepted silently)",
     "C02_i": "round 5: NOT detected at first (MeterContext::ForceFlush stops calling the remaining readers once the caller's finite timeout is used up; the COMPOSE cases only used the default timeout); COMPOSE got ops ft/ht (500 us budget, 1.5 ms children) - caught (compose:child_skipped)",
     "C01_a": "the change is in CircularBuffer::Add: caught by C11 (ring under the shim); C01 runs use the queue as an atomic FIFO (one scheduling point per queue call) by design and cannot see it",
 }
